@@ -579,4 +579,11 @@ def R6_restriction_table(ctx):
     R6_plumbing(ctx)
 
 
-RULES = [R1_tolerance_units, R2_nearest_admissible, R3_no_partial_write, R4_who_may_write, R5_configured_tolerance, R6_restriction_table]
+def R7_class_filter_parsed(ctx):
+    """the edge matcher "skips candidates excluded by the query's road classes": the filter it applies is what RoadClassParser::read_query
+    makes of the query — unknown names are errors and only an absent field means "no filter" (shared with C04.R3b)"""
+    from props.C04 import R3b_parser
+    R3b_parser(ctx)
+
+
+RULES = [R1_tolerance_units, R2_nearest_admissible, R3_no_partial_write, R4_who_may_write, R5_configured_tolerance, R6_restriction_table, R7_class_filter_parsed]
